@@ -101,20 +101,19 @@ Print Assumptions bridge_terminates.
    exactly the first n elements with n and the outcome as in bridge_complete, every
    worker had ended when the iteration finished and no helper thread was left, and
    (to_async_iter over an Iterator) during every pull of the source that took d
-   virtual ticks the ticker ran at least d-1 times. *)
+   virtual ticks the ticker ran at least d-1 times.  (cfg_of / obs_of_case / parks_of
+   are the projections of a gate-level or line-level case.) *)
 Theorem monitor_sound :
   forall k : case,
     ok k = true ->
-    match k with
-    | Case c _ _ _ res obsd out joined nleft _ _ _ parks =>
-        res = 0 /\
-        (exists n, obsd = firstn n (c_src c) /\
-           (c_fail c = None -> n = length (c_src c) /\ out = Some Stop) /\
-           (forall f, c_fail c = Some f -> f <= length (c_src c) -> n = f /\ out = Some (Raised (c_exc c))) /\
-           (forall f, c_fail c = Some f -> length (c_src c) < f -> n = length (c_src c) /\ out = Some Stop)) /\
-        joined = true /\ nleft = 0 /\
-        (is_async c = true -> c_noniter c = false -> forall d t, In (d, t) parks -> d <= t + 1)
-    end.
+    let c := cfg_of k in let o := obs_of_case k in
+    o_res o = 0 /\
+    (exists n, o_consumed o = firstn n (c_src c) /\
+       (c_fail c = None -> n = length (c_src c) /\ o_out o = Some Stop) /\
+       (forall f, c_fail c = Some f -> f <= length (c_src c) -> n = f /\ o_out o = Some (Raised (c_exc c))) /\
+       (forall f, c_fail c = Some f -> length (c_src c) < f -> n = length (c_src c) /\ o_out o = Some Stop)) /\
+    o_joined o = true /\ o_left o = 0 /\
+    (is_async c = true -> c_noniter c = false -> forall d t, In (d, t) (parks_of k) -> d <= t + 1).
 Proof. exact ok_sound_lemma. Qed.
 Print Assumptions monitor_sound.
 
@@ -127,18 +126,20 @@ Theorem monitor_complete :
 Proof. exact ok_complete_lemma. Qed.
 Print Assumptions monitor_complete.
 
-(* If the model reproduces an implementation run step for step (agree), the monitor
-   accepts everything it checks on that run except possibly the ticker counts
-   (which the untimed model does not predict). *)
+(* If the model reproduces an implementation run (agree: step for step for gate-level
+   cases, final observation under the canonical fair schedule for line-level cases), the
+   monitor accepts everything it checks on that run except possibly the ticker counts
+   (which the untimed model does not predict; `unstarved` blanks that field). *)
 Theorem agree_implies_ok :
-  forall k : case,
-    agree k = true ->
-    match k with
-    | Case c _ _ _ res obsd out joined nleft _ _ _ _ =>
-        ok_obs c (mkObs res obsd out joined nleft false) = true
-    end.
+  forall k : case, agree k = true -> ok_obs (cfg_of k) (unstarved (obs_of_case k)) = true.
 Proof. exact agree_ok_lemma. Qed.
 Print Assumptions agree_implies_ok.
+
+(* The canonical fair schedule used by agree for line-level cases finishes every
+   configuration, so that comparison is never vacuous. *)
+Theorem canonical_schedule_finishes : forall c : cfg, is_done (run c (canon c)) = true.
+Proof. exact canon_done. Qed.
+Print Assumptions canonical_schedule_finishes.
 
 (* ---- non-vacuity -------------------------------------------------------------- *)
 
@@ -195,5 +196,10 @@ Example monitor_examples :
   ok (mk_case ex_fail 0 [7; 0] (Some (Raised 1)) true 0 []) = true /\
   ok (mk_case ex_async 0 [7; 0; 7] (Some Stop) false 0 []) = false /\
   ok (mk_case ex_async 0 [7; 0; 7] (Some Stop) true 0 [(3, 0)]) = false /\
-  ok (mk_case ex_async 1 [7; 0] None false 1 []) = false.
+  ok (mk_case ex_async 1 [7; 0] None false 1 []) = false /\
+  (* line-level cases: a silently dropped tail / a consumer that never finishes *)
+  ok (CaseL ex_fail false 40 0 [7; 0] (Some (Raised 1)) true 0 1 1 []) = true /\
+  agree (CaseL ex_fail false 40 0 [7; 0] (Some (Raised 1)) true 0 1 1 [(0, 0); (0, 0); (0, 0)]) = true /\
+  ok (CaseL ex_async false 40 0 [7] (Some Stop) true 0 1 1 []) = false /\
+  ok (CaseL ex_async false 40 1 [7] None false 0 1 1 []) = false.
 Proof. vm_compute. repeat split. Qed.
